@@ -379,6 +379,24 @@ func (ex *Exec) callFunc(st *State, fn *types.Func, recv *Val, args []*Val, call
 
 func (ex *Exec) unknownCall(st *State, ref string, recv *Val, args []*Val, resT types.Type, pos token.Pos, fv *Val) []*Val {
 	ex.unknown[ref]++
+	if fv != nil && fv.Sh != nil && fv.Sh.IsLeaf() {
+		// effect log of calls made through function values (when the ghosts are declared)
+		if g, ok := ex.eng.cs.Ghosts["fnCalls"]; ok {
+			l := ex.ghostLoc(g, nil)
+			n := ex.readLoc(st, l)
+			ex.writeLoc(st, l, ex.intVal("(+ "+n.S+" 1)", types.Typ[types.Int]))
+		}
+		if g, ok := ex.eng.cs.Ghosts["fnCallsT"]; ok && fv.T != nil {
+			l := ex.ghostLoc(g, []*Val{{S: fmt.Sprint(typeID(fv.T))}})
+			n := ex.readLoc(st, l)
+			ex.writeLoc(st, l, ex.intVal("(+ "+n.S+" 1)", types.Typ[types.Int]))
+		}
+		if g, ok := ex.eng.cs.Ghosts["fnCalledN"]; ok {
+			l := ex.ghostLoc(g, []*Val{fv})
+			n := ex.readLoc(st, l)
+			ex.writeLoc(st, l, ex.intVal("(+ "+n.S+" 1)", types.Typ[types.Int]))
+		}
+	}
 	if fv != nil && ex.contract != nil && ex.contract.LocalCalls {
 		// a call through a function value: by the contract's `localcalls` attribute it
 		// only affects the objects handed to it
@@ -1149,6 +1167,19 @@ func (ex *Exec) specForm(st *State, name string, call *ast.CallExpr, sc *SpecCtx
 		}
 		ex.specErr("%s: argument is not a multi-value call", name)
 		return one(ex.freshVal(nil, "tuple"))
+	case "callsOf":
+		// number of calls made so far through function values of the given (named) function type
+		t := ex.resolveType(call.Args[0], sc)
+		g, ok := ex.eng.cs.Ghosts["fnCallsT"]
+		if t == nil || !ok {
+			ex.specErr("callsOf(T): T must be a function type and ghost fnCallsT(int) int must be declared")
+			return one(ex.intVal("0", types.Typ[types.Int]))
+		}
+		s := st
+		if sc.inOld {
+			s = sc.old
+		}
+		return one(ex.retype(ex.readLoc(s, ex.ghostLoc(g, []*Val{{S: fmt.Sprint(typeID(t))}})), types.Typ[types.Int]))
 	case "implements":
 		v := ex.eval(st, call.Args[0], sc)
 		t := ex.resolveType(call.Args[1], sc)
